@@ -174,6 +174,28 @@ let ctxptrs id mode ctx ops =
     let l = function Own c -> if c = q then "o" else "s" | Default -> "x" | InDDict _ -> "x" in
     Printf.printf "T %s %s%s%s%s\n" id (l a) (l b) (l e) (l h)
 
+let dictowner id mode ops =
+  let fixed = (mode = "fixed") in
+  let dig c = n_of_int (Char.code c - 48) in
+  let parse o =
+    match o.[0] with
+    | 'n' -> DCreate (dig o.[1]) | 'l' -> DLoad (dig o.[1]) | 'p' -> DPrefix (dig o.[1]) | 'r' -> DRef (dig o.[1], dig o.[2])
+    | 'x' -> DClear (dig o.[1]) | 'u' -> DUse (dig o.[1]) | 'f' -> DFree (dig o.[1]) | 'c' -> DCopy (dig o.[1], dig o.[2])
+    | _ -> failwith "badop" in
+  let ops = List.map parse (List.filter (fun o -> o <> "") (String.split_on_char ',' ops)) in
+  let tr = dtrace fixed d_init ops in
+  let show_ctx s q =
+    match s.d_ctx (n_of_int q) with
+    | None -> "-|"
+    | Some f ->
+      (match f.d_local with None -> "." | Some h -> string_of_int (int_of_n h)) ^
+      (match f.d_cur with DNull -> "/n" | DLocal h -> "/L" ^ string_of_int (int_of_n h) | DExt d -> "/E" ^ string_of_int (int_of_n d)) ^
+      (match f.d_uses with DontUse -> "/0|" | UseOnce -> "/1|" | UseIndef -> "/-1|") in
+  let show (((s, r), ok), o) =
+    show_ctx s 1 ^ show_ctx s 2 ^ show_ctx s 3 ^
+    (match o with DUse _ -> (match r with DNull -> "=none" | DLocal h -> (if ok then "=L" else "=FREED:L") ^ string_of_int (int_of_n h) | DExt d -> "=E" ^ string_of_int (int_of_n d)) | _ -> "") ^ ";" in
+  Printf.printf "O %s %s\n" id (String.concat "" (List.map show (List.combine tr ops)))
+
 let unit_huf id hx =
   match read_huf_weights (n_of_int 12) (bytes_of_hex hx) with
   | Ok ((ws, log), used) ->
@@ -200,6 +222,7 @@ let () =
        | ["G"; id; w; fcs; b; rs] -> ringtrace id w fcs b rs
        | ["C"; id; mode; ops] -> continuity id mode ops
        | ["T"; id; mode; ctx; ops] -> ctxptrs id mode ctx ops
+       | ["O"; id; mode; ops] -> dictowner id mode ops
        | ["UH"; id; hx] -> unit_huf id hx
        | ["UN"; id; msv; hx] -> unit_ncount id msv hx
        | _ -> if line <> "" then Printf.printf "? BADLINE\n");
